@@ -172,7 +172,7 @@ pub fn checks() -> Vec<Check> {
         v.push(Check {
             prop,
             parts: if prop == "C12" {
-                vec![Part { name: hotplug::SEQ.name(), xen: false, quick: 600_000, thorough: 30_000_000 }, Part { name: "S-hotplug/sequential", xen: true, quick: 200_000, thorough: 10_000_000 }, Part { name: "S-xen", xen: true, quick: 300_000, thorough: 10_000_000 }, Part { name: "S-build", xen: true, quick: 300_000, thorough: 10_000_000 }]
+                vec![Part { name: hotplug::SEQ.name(), xen: false, quick: 600_000, thorough: 30_000_000 }, Part { name: "S-hotplug/sequential", xen: true, quick: 200_000, thorough: 10_000_000 }, Part { name: "S-xen", xen: true, quick: 300_000, thorough: 10_000_000 }, Part { name: "S-build", xen: true, quick: 300_000, thorough: 10_000_000 }, Part { name: "S-build", xen: false, quick: 400_000, thorough: 15_000_000 }]
             } else {
                 vec![Part { name: hotplug::SEQ.name(), xen: false, quick: 600_000, thorough: 30_000_000 }, Part { name: "S-hotplug/sequential", xen: true, quick: 200_000, thorough: 10_000_000 }]
             },
